@@ -553,13 +553,32 @@ def _r8(ctx, repo, A, pm, rule="C03.R8", only=None, floor=4):
                     and st.lineno <= getattr(e, "lineno", 10 ** 9)]
             if defs:
                 d = max(defs, key=lambda st: st.lineno).value
+        def flat(js):
+            """parts of an f-string with nested f-strings spliced and adjacent
+            constants merged: [str | None(placeholder)]"""
+            out = []
+            for v in js.values:
+                if isinstance(v, ast.Constant):
+                    out.append(str(v.value))
+                elif isinstance(v, ast.FormattedValue) and isinstance(v.value, ast.JoinedStr):
+                    out.extend(flat(v.value))
+                elif isinstance(v, ast.FormattedValue) and isinstance(v.value, ast.Constant):
+                    out.append(str(v.value.value))
+                else:
+                    out.append(None)
+            merged = []
+            for p_ in out:
+                if p_ is not None and merged and merged[-1] is not None:
+                    merged[-1] += p_
+                else:
+                    merged.append(p_)
+            return merged
         for x in ast.walk(d):
             if isinstance(x, ast.JoinedStr):
-                for i, v in enumerate(x.values[:-1]):
-                    if isinstance(v, ast.Constant) and isinstance(v.value, str) \
-                            and v.value.endswith(SUBOBJ) \
-                            and isinstance(x.values[i + 1], ast.FormattedValue):
-                        return v.value
+                parts = flat(x)
+                for i, v in enumerate(parts[:-1]):
+                    if v is not None and v.endswith(SUBOBJ) and parts[i + 1] is None:
+                        return v
         return None
     nsites = 0
     funcs = [f for f in repo.all_funcs(pm) if f.parent is None
